@@ -13,23 +13,23 @@ import Peppi.Lemmas.Example
 namespace Peppi
 
 /-- the codec laws truncation needs -/
-structure CodecT (χ : Type) extends Codec χ where
+structure CodecT (μ φ : Type) extends Codec μ φ where
   peppi_np : ∀ b s, decPeppi b ≠ .panic s
   meta_np : ∀ b s, decMeta b ≠ .panic s
   /-- a prefix of the written Arrow stream never yields a different frame set -/
-  frames_prefix : ∀ f n f', (decFrames ((encFrames f).take n)).1 = true → readArrowFrames (decFrames ((encFrames f).take n)).2 = .ok f' → f' = f
+  frames_prefix : ∀ f n f', (decFrames ((encFrames f).take n)).1 = true → readArrowFrames (decFrames ((encFrames f).take n)).2 = .ok f' → f' = norm f
 
-def classifyT {χ : Type} (C : Codec χ) : TItem → PEntry χ
+def classifyT {μ φ : Type} (C : Codec μ φ) : TItem → PEntry μ φ
   | .entry n b => classify C (n, b)
   | .broken => .broken
 
 /-- `io::peppi::read` over the lazy iterator: total on every byte string -/
-def slppReadL {χ : Type} (C : Codec χ) (T : TextOracle) (skip : Bool) (bs : Bytes) : Res (PGame χ) :=
+def slppReadL {μ φ : Type} (C : Codec μ φ) (T : TextOracle) (skip : Bool) (bs : Bytes) : Res (PGame μ φ) :=
   let r := tarScan (bs.length / 512 + 2) bs
   peppiRead T skip r.2 (r.1.map (classifyT C))
 
 /-- one iteration of the entry loop: a final result, or the next accumulator -/
-def pstep {χ : Type} (T : TextOracle) (skip : Bool) (acc : PAcc χ) : PEntry χ → Sum (Res (PGame χ)) (PAcc χ)
+def pstep {μ φ : Type} (T : TextOracle) (skip : Bool) (acc : PAcc μ) : PEntry μ φ → Sum (Res (PGame μ φ)) (PAcc μ)
   | .broken => .inl (.err "tar")
   | .other => .inr acc
   | .peppiJson r =>
@@ -65,7 +65,7 @@ def pstep {χ : Type} (T : TextOracle) (skip : Bool) (acc : PAcc χ) : PEntry χ
          | .err e => .inl (.err e)
          | .panic s => .inl (.panic s))
 
-theorem peppiLoop_step {χ : Type} (T : TextOracle) (skip t : Bool) (acc : PAcc χ) (p : PEntry χ) (rest : List (PEntry χ)) :
+theorem peppiLoop_step {μ φ : Type} (T : TextOracle) (skip t : Bool) (acc : PAcc μ) (p : PEntry μ φ) (rest : List (PEntry μ φ)) :
     peppiLoop T skip t acc (p :: rest) =
       match pstep T skip acc p with
       | .inl r => r
@@ -95,8 +95,8 @@ theorem peppiLoop_step {χ : Type} (T : TextOracle) (skip t : Bool) (acc : PAcc 
         · cases readArrowFrames items <;> rfl
 
 /-- end of input with no end-of-archive marker is never a game -/
-theorem peppiLoop_nil_false {χ : Type} (T : TextOracle) (skip : Bool) (acc : PAcc χ) :
-    ∃ m, peppiLoop T skip false acc ([] : List (PEntry χ)) = .err m := by
+theorem peppiLoop_nil_false {μ φ : Type} (T : TextOracle) (skip : Bool) (acc : PAcc μ) :
+    ∃ m, peppiLoop T skip false acc ([] : List (PEntry μ φ)) = .err m := by
   simp only [peppiLoop]
   cases hp : acc.peppi with
   | none => exact ⟨"missing peppi", by simp [finish, hp]⟩
@@ -106,7 +106,7 @@ theorem peppiLoop_nil_false {χ : Type} (T : TextOracle) (skip : Bool) (acc : PA
     | some s => exact ⟨"missing frames", by simp⟩
 
 /-- with an incomplete marker the loop fails or does what it does with a complete one -/
-theorem peppiLoop_trailer {χ : Type} (T : TextOracle) (skip : Bool) : ∀ (es : List (PEntry χ)) (acc : PAcc χ),
+theorem peppiLoop_trailer {μ φ : Type} (T : TextOracle) (skip : Bool) : ∀ (es : List (PEntry μ φ)) (acc : PAcc μ),
     (∃ m, peppiLoop T skip false acc es = .err m) ∨ peppiLoop T skip false acc es = peppiLoop T skip true acc es := by
   intro es
   induction es with
@@ -120,13 +120,13 @@ theorem peppiLoop_trailer {χ : Type} (T : TextOracle) (skip : Bool) : ∀ (es :
 
 /-- an entry is *prefix-safe* when cutting its contents short makes the reader fail, go on (into the error of the next
     iterator call), or return what it returns for the whole entry -/
-def PrefOK {χ : Type} (C : Codec χ) (T : TextOracle) (skip : Bool) (e : Bytes × Bytes) : Prop :=
-  ∀ (acc : PAcc χ) (k : Nat) (r : Res (PGame χ)), pstep T skip acc (classify C (e.1, e.2.take k)) = .inl r →
+def PrefOK {μ φ : Type} (C : Codec μ φ) (T : TextOracle) (skip : Bool) (e : Bytes × Bytes) : Prop :=
+  ∀ (acc : PAcc μ) (k : Nat) (r : Res (PGame μ φ)), pstep T skip acc (classify C (e.1, e.2.take k)) = .inl r →
     (∃ m, r = .err m) ∨ pstep T skip acc (classify C e) = .inl r
 
 /-- **the entry loop on every cut** of the archive written for `es` -/
-theorem peppiLoop_cut {χ : Type} (C : Codec χ) (T : TextOracle) (skip : Bool) :
-    ∀ (es : List (Bytes × Bytes)), (∀ e ∈ es, PrefOK C T skip e) → ∀ (n : Nat) (acc : PAcc χ),
+theorem peppiLoop_cut {μ φ : Type} (C : Codec μ φ) (T : TextOracle) (skip : Bool) :
+    ∀ (es : List (Bytes × Bytes)), (∀ e ∈ es, PrefOK C T skip e) → ∀ (n : Nat) (acc : PAcc μ),
       (∃ m, peppiLoop T skip (cutItems es n).2 acc ((cutItems es n).1.map (classifyT C)) = .err m) ∨
       peppiLoop T skip (cutItems es n).2 acc ((cutItems es n).1.map (classifyT C)) = peppiLoop T skip true acc (es.map (classify C)) := by
   intro es
@@ -170,17 +170,17 @@ theorem peppiLoop_cut {χ : Type} (C : Codec χ) (T : TextOracle) (skip : Bool) 
 
 /-! ### the written entries are prefix-safe -/
 
-theorem prefOK_of_continue {χ : Type} (C : Codec χ) (T : TextOracle) (skip : Bool) (e : Bytes × Bytes)
-    (h : ∀ (acc : PAcc χ) (b : Bytes) (r : Res (PGame χ)), pstep T skip acc (classify C (e.1, b)) = .inl r → ∃ m, r = .err m) :
+theorem prefOK_of_continue {μ φ : Type} (C : Codec μ φ) (T : TextOracle) (skip : Bool) (e : Bytes × Bytes)
+    (h : ∀ (acc : PAcc μ) (b : Bytes) (r : Res (PGame μ φ)), pstep T skip acc (classify C (e.1, b)) = .inl r → ∃ m, r = .err m) :
     PrefOK C T skip e := fun acc _ r hr => .inl (h acc _ r hr)
 
-theorem classify_peppi {χ : Type} (C : Codec χ) (b : Bytes) : classify C (N_PEPPI, b) = .peppiJson (C.decPeppi b) := by simp [classify]
-theorem classify_meta {χ : Type} (C : Codec χ) (b : Bytes) : classify C (N_META, b) = .metadataJson (C.decMeta b) := by
+theorem classify_peppi {μ φ : Type} (C : Codec μ φ) (b : Bytes) : classify C (N_PEPPI, b) = .peppiJson (C.decPeppi b) := by simp [classify]
+theorem classify_meta {μ φ : Type} (C : Codec μ φ) (b : Bytes) : classify C (N_META, b) = .metadataJson (C.decMeta b) := by
   have h1 : ¬ N_META = N_PEPPI := by decide
   have h2 : ¬ N_META = N_STARTR := by decide
   have h3 : ¬ N_META = N_ENDR := by decide
   simp [classify, h1, h2, h3]
-theorem classify_startj {χ : Type} (C : Codec χ) (b : Bytes) : classify C (N_STARTJ, b) = .other := by
+theorem classify_startj {μ φ : Type} (C : Codec μ φ) (b : Bytes) : classify C (N_STARTJ, b) = .other := by
   have a1 : ¬ N_STARTJ = N_PEPPI := by decide
   have a2 : ¬ N_STARTJ = N_STARTR := by decide
   have a3 : ¬ N_STARTJ = N_ENDR := by decide
@@ -188,10 +188,10 @@ theorem classify_startj {χ : Type} (C : Codec χ) (b : Bytes) : classify C (N_S
   have a5 : ¬ N_STARTJ = N_GECKO := by decide
   have a6 : ¬ N_STARTJ = N_FRAMES := by decide
   simp [classify, a1, a2, a3, a4, a5, a6]
-theorem classify_startr {χ : Type} (C : Codec χ) (b : Bytes) : classify C (N_STARTR, b) = .startRaw b := by
+theorem classify_startr {μ φ : Type} (C : Codec μ φ) (b : Bytes) : classify C (N_STARTR, b) = .startRaw b := by
   have a1 : ¬ N_STARTR = N_PEPPI := by decide
   simp [classify, a1]
-theorem classify_endj {χ : Type} (C : Codec χ) (b : Bytes) : classify C (N_ENDJ, b) = .other := by
+theorem classify_endj {μ φ : Type} (C : Codec μ φ) (b : Bytes) : classify C (N_ENDJ, b) = .other := by
   have a1 : ¬ N_ENDJ = N_PEPPI := by decide
   have a2 : ¬ N_ENDJ = N_STARTR := by decide
   have a3 : ¬ N_ENDJ = N_ENDR := by decide
@@ -199,17 +199,17 @@ theorem classify_endj {χ : Type} (C : Codec χ) (b : Bytes) : classify C (N_END
   have a5 : ¬ N_ENDJ = N_GECKO := by decide
   have a6 : ¬ N_ENDJ = N_FRAMES := by decide
   simp [classify, a1, a2, a3, a4, a5, a6]
-theorem classify_endr {χ : Type} (C : Codec χ) (b : Bytes) : classify C (N_ENDR, b) = .endRaw b := by
+theorem classify_endr {μ φ : Type} (C : Codec μ φ) (b : Bytes) : classify C (N_ENDR, b) = .endRaw b := by
   have a1 : ¬ N_ENDR = N_PEPPI := by decide
   have a2 : ¬ N_ENDR = N_STARTR := by decide
   simp [classify, a1, a2]
-theorem classify_gecko {χ : Type} (C : Codec χ) (b : Bytes) : classify C (N_GECKO, b) = .geckoRaw b := by
+theorem classify_gecko {μ φ : Type} (C : Codec μ φ) (b : Bytes) : classify C (N_GECKO, b) = .geckoRaw b := by
   have a1 : ¬ N_GECKO = N_PEPPI := by decide
   have a2 : ¬ N_GECKO = N_STARTR := by decide
   have a3 : ¬ N_GECKO = N_ENDR := by decide
   have a4 : ¬ N_GECKO = N_META := by decide
   simp [classify, a1, a2, a3, a4]
-theorem classify_frames {χ : Type} (C : Codec χ) (b : Bytes) : classify C (N_FRAMES, b) = .framesArrow (C.decFrames b).1 (C.decFrames b).2 := by
+theorem classify_frames {μ φ : Type} (C : Codec μ φ) (b : Bytes) : classify C (N_FRAMES, b) = .framesArrow (C.decFrames b).1 (C.decFrames b).2 := by
   have a1 : ¬ N_FRAMES = N_PEPPI := by decide
   have a2 : ¬ N_FRAMES = N_STARTR := by decide
   have a3 : ¬ N_FRAMES = N_ENDR := by decide
@@ -217,7 +217,7 @@ theorem classify_frames {χ : Type} (C : Codec χ) (b : Bytes) : classify C (N_F
   have a5 : ¬ N_FRAMES = N_GECKO := by decide
   simp [classify, a1, a2, a3, a4, a5]
 
-theorem slppEntries_prefOK {χ : Type} (C : CodecT χ) (T : TextOracle) (skip : Bool) (g : PGame χ) (startBytes : Bytes)
+theorem slppEntries_prefOK {μ φ : Type} (C : CodecT μ φ) (T : TextOracle) (skip : Bool) (g : PGame μ φ) (startBytes : Bytes)
     (endBytes : Option Bytes) : ∀ e ∈ slppEntries C.toCodec g startBytes endBytes, PrefOK C.toCodec T skip e := by
   have k1 : ∀ x, PrefOK C.toCodec T skip (N_PEPPI, x) := fun x => prefOK_of_continue _ T skip _ (by
     intro acc b r hr
@@ -308,13 +308,13 @@ theorem slppEntries_prefOK {χ : Type} (C : CodecT χ) (T : TextOracle) (skip : 
 
 /-- **C07, `.slpp`, every cut, byte level**: reading any prefix of the archive `write` produced is an error or the complete
     game (the same value the whole archive gives) — never anything in between, and never a panic.  -/
-theorem slppReadL_cut {χ : Type} (C : CodecT χ) (T : TextOracle) (g : PGame χ) (startBytes : Bytes) (endBytes : Option Bytes)
+theorem slppReadL_cut {μ φ : Type} (C : CodecT μ φ) (T : TextOracle) (g : PGame μ φ) (startBytes : Bytes) (endBytes : Option Bytes)
     (hstart : gameStart T startBytes = .ok g.start)
     (hend : endBytes.map gameEnd = g.fend.map Res.ok)
     (hgecko : ∀ c, g.gecko = some c → c.2 < 2 ^ 32)
     (hs : SizesOK C.toCodec g startBytes endBytes) (skip : Bool) (n : Nat) :
     (∃ m, slppReadL C.toCodec T skip ((slppWrite C.toCodec g startBytes endBytes).take n) = .err m) ∨
-    slppReadL C.toCodec T skip ((slppWrite C.toCodec g startBytes endBytes).take n) = .ok (if skip then { g with frames := none } else g) := by
+    slppReadL C.toCodec T skip ((slppWrite C.toCodec g startBytes endBytes).take n) = .ok (if skip then { g with frames := none } else { g with frames := g.frames.map C.norm }) := by
   have hendS : endBytes.isSome = g.fend.isSome := by
     cases endBytes <;> cases hf : g.fend <;> simp [hf] at hend ⊢
   have hok := slppEntries_ok C.toCodec g startBytes endBytes hs
@@ -335,16 +335,16 @@ theorem slppReadL_cut {χ : Type} (C : CodecT χ) (T : TextOracle) (g : PGame χ
     unfold peppiRead
     rw [h, classify_written C.toCodec g startBytes endBytes hendS]
     cases skip with
-    | false => simpa [peppiRead] using peppiRead_written T g startBytes endBytes true hstart hend hgecko (fun _ => rfl)
-    | true => simpa [peppiRead] using peppiRead_written_skip T g startBytes endBytes true hstart hend hgecko (fun _ => rfl)
+    | false => simpa [peppiRead] using peppiRead_written T { g with frames := g.frames.map C.norm } startBytes endBytes true hstart hend hgecko (fun _ => rfl)
+    | true => simpa [peppiRead] using peppiRead_written_skip T { g with frames := g.frames.map C.norm } startBytes endBytes true hstart hend hgecko (fun _ => rfl)
 
 /-- on the whole archive the lazy reader returns the game (it agrees with `slppRead_written`) -/
-theorem slppReadL_written {χ : Type} (C : CodecT χ) (T : TextOracle) (g : PGame χ) (startBytes : Bytes) (endBytes : Option Bytes)
+theorem slppReadL_written {μ φ : Type} (C : CodecT μ φ) (T : TextOracle) (g : PGame μ φ) (startBytes : Bytes) (endBytes : Option Bytes)
     (hstart : gameStart T startBytes = .ok g.start)
     (hend : endBytes.map gameEnd = g.fend.map Res.ok)
     (hgecko : ∀ c, g.gecko = some c → c.2 < 2 ^ 32)
     (hs : SizesOK C.toCodec g startBytes endBytes) (skip : Bool) :
-    slppReadL C.toCodec T skip (slppWrite C.toCodec g startBytes endBytes) = .ok (if skip then { g with frames := none } else g) := by
+    slppReadL C.toCodec T skip (slppWrite C.toCodec g startBytes endBytes) = .ok (if skip then { g with frames := none } else { g with frames := g.frames.map C.norm }) := by
   have hendS : endBytes.isSome = g.fend.isSome := by
     cases endBytes <;> cases hf : g.fend <;> simp [hf] at hend ⊢
   have hok := slppEntries_ok C.toCodec g startBytes endBytes hs
@@ -363,12 +363,12 @@ theorem slppReadL_written {χ : Type} (C : CodecT χ) (T : TextOracle) (g : PGam
     apply List.map_congr_left; intro e _; rfl
   rw [this, classify_written C.toCodec g startBytes endBytes hendS]
   cases skip with
-  | false => simpa using peppiRead_written T g startBytes endBytes true hstart hend hgecko (fun _ => rfl)
-  | true => simpa using peppiRead_written_skip T g startBytes endBytes true hstart hend hgecko (fun _ => rfl)
+  | false => simpa using peppiRead_written T { g with frames := g.frames.map C.norm } startBytes endBytes true hstart hend hgecko (fun _ => rfl)
+  | true => simpa using peppiRead_written_skip T { g with frames := g.frames.map C.norm } startBytes endBytes true hstart hend hgecko (fun _ => rfl)
 
 /-! ### no byte string makes the reader panic -/
 
-theorem classify_cases {χ : Type} (C : Codec χ) (e : Bytes × Bytes) :
+theorem classify_cases {μ φ : Type} (C : Codec μ φ) (e : Bytes × Bytes) :
     classify C e = .peppiJson (C.decPeppi e.2) ∨ classify C e = .startRaw e.2 ∨ classify C e = .endRaw e.2 ∨
     classify C e = .metadataJson (C.decMeta e.2) ∨ classify C e = .geckoRaw e.2 ∨
     classify C e = .framesArrow (C.decFrames e.2).1 (C.decFrames e.2).2 ∨ classify C e = .other := by
@@ -387,13 +387,13 @@ theorem classify_cases {χ : Type} (C : Codec χ) (e : Bytes × Bytes) :
             · exact .inr (.inr (.inr (.inr (.inr (.inl rfl)))))
             · exact .inr (.inr (.inr (.inr (.inr (.inr rfl)))))
 
-theorem finish_noPanic {χ : Type} (acc : PAcc χ) (f : Option χ) (s : String) : finish acc f ≠ .panic s := by
+theorem finish_noPanic {μ φ : Type} (acc : PAcc μ) (f : Option φ) (s : String) : finish acc f ≠ .panic s := by
   unfold finish
   split
   · simp
   · split <;> simp
 
-theorem pstep_noPanic {χ : Type} (C : CodecT χ) (T : TextOracle) (skip : Bool) (acc : PAcc χ) (it : TItem) (r : Res (PGame χ))
+theorem pstep_noPanic {μ φ : Type} (C : CodecT μ φ) (T : TextOracle) (skip : Bool) (acc : PAcc μ) (it : TItem) (r : Res (PGame μ φ))
     (h : pstep T skip acc (classifyT C.toCodec it) = .inl r) (s : String) : r ≠ .panic s := by
   cases it with
   | broken => simp only [classifyT, pstep] at h; cases h; simp
@@ -432,8 +432,8 @@ theorem pstep_noPanic {χ : Type} (C : CodecT χ) (T : TextOracle) (skip : Bool)
             | panic x => exact absurd hd (readArrowFrames_noPanic _ x)
     · cases h
 
-theorem peppiLoop_noPanic {χ : Type} (C : CodecT χ) (T : TextOracle) (skip t : Bool) :
-    ∀ (items : List TItem) (acc : PAcc χ) (s : String), peppiLoop T skip t acc (items.map (classifyT C.toCodec)) ≠ .panic s := by
+theorem peppiLoop_noPanic {μ φ : Type} (C : CodecT μ φ) (T : TextOracle) (skip t : Bool) :
+    ∀ (items : List TItem) (acc : PAcc μ) (s : String), peppiLoop T skip t acc (items.map (classifyT C.toCodec)) ≠ .panic s := by
   intro items
   induction items with
   | nil =>
@@ -453,7 +453,7 @@ theorem peppiLoop_noPanic {χ : Type} (C : CodecT χ) (T : TextOracle) (skip t :
 
 /-- **the `.slpp` reader returns on every byte string**: a game or an error, never a panic (the function is total: it
     terminates), whatever the bytes are — provided the external decoders do not panic -/
-theorem slppReadL_noPanic {χ : Type} (C : CodecT χ) (T : TextOracle) (skip : Bool) (bs : Bytes) (s : String) :
+theorem slppReadL_noPanic {μ φ : Type} (C : CodecT μ φ) (T : TextOracle) (skip : Bool) (bs : Bytes) (s : String) :
     slppReadL C.toCodec T skip bs ≠ .panic s := by
   unfold slppReadL peppiRead
   exact peppiLoop_noPanic C T skip _ _ _ s
@@ -507,8 +507,9 @@ def toyDecFrames (bs : Bytes) : Bool × List (SItem Bytes) :=
   | none => (true, [.waiting])
 
 /-- a codec that satisfies all the laws, those of the round trip and those of truncation -/
-def toyCodecT : CodecT Bytes where
+def toyCodecT : CodecT Bytes Bytes where
   toCodec := { toyCodec with encFrames := toyEncF, decFrames := toyDecFrames,
+                             norm := fun f => f,
                              frames_rt := fun f => by simp [toyDecFrames, toyDecF_enc] }
   peppi_np b s := by
     show toyDecPeppi b ≠ _
@@ -528,11 +529,11 @@ def toyCodecT : CodecT Bytes where
       rw [← h']; exact toyDecF_prefix f n x hd
 
 /-- a concrete game for the non-vacuity check: 3.17 start block, no end, metadata, frames -/
-def exPGame : PGame Bytes :=
+def exPGame : PGame Bytes Bytes :=
   { start := startOf (exBlock 3 17 760), fend := none, metadata := some [1, 2], gecko := some ([9, 9, 9], 3),
     frames := some [5, 6, 7], hash := none, quirks := some true }
 
-instance {χ : Type} (C : Codec χ) (g : PGame χ) (sb : Bytes) (eb : Option Bytes) : Decidable (SizesOK C g sb eb) := by
+instance {μ φ : Type} (C : Codec μ φ) (g : PGame μ φ) (sb : Bytes) (eb : Option Bytes) : Decidable (SizesOK C g sb eb) := by
   unfold SizesOK; exact inferInstance
 
 /-- the hypotheses of `slppReadL_cut` are met by a concrete game and the toy codec; so every cut of that archive is an error
@@ -540,7 +541,7 @@ instance {χ : Type} (C : Codec χ) (g : PGame χ) (sb : Bytes) (eb : Option Byt
 theorem exPGame_cut (skip : Bool) (n : Nat) :
     (∃ m, slppReadL toyCodecT.toCodec T0 skip ((slppWrite toyCodecT.toCodec exPGame (exBlock 3 17 760) none).take n) = .err m) ∨
     slppReadL toyCodecT.toCodec T0 skip ((slppWrite toyCodecT.toCodec exPGame (exBlock 3 17 760) none).take n) =
-      .ok (if skip then { exPGame with frames := none } else exPGame) := by
+      .ok (if skip then { exPGame with frames := none } else { exPGame with frames := exPGame.frames.map toyCodecT.norm }) := by
   have h1 : (gameStart T0 (exBlock 3 17 760)).isOk = true := by decide +kernel
   have h2 : ∀ c, exPGame.gecko = some c → c.2 < 2 ^ 32 := by
     intro c h; simp only [exPGame, Option.some.injEq] at h; subst h; decide
@@ -569,27 +570,27 @@ theorem parseMeta_noPanic (b : Bytes) (s : String) : parseMeta b ≠ .panic s :=
 /-- any `CodecT` with its `peppi.json` and `metadata.json` parts replaced by the JSON text models: the round-trip laws and
     the no-panic laws of those entries are theorems (`decPeppiJ_enc`, `parseMeta_json`, `decPeppiJ_noPanic`,
     `parseMeta_noPanic`); what remains assumed is the Arrow IPC part -/
-def CodecT.withJson (C : CodecT KVs) : CodecT KVs :=
+def CodecT.withJson {φ : Type} (C : CodecT KVs φ) : CodecT KVs φ :=
   { toCodec := C.toCodec.withJson, peppi_np := decPeppiJ_noPanic, meta_np := parseMeta_noPanic, frames_prefix := C.frames_prefix }
 
 /-- the byte-level round trip with both JSON entries the reader looks at as real JSON text -/
-theorem slppRead_written_json2 (C : Codec KVs) (T : TextOracle) (g : PGame KVs) (startBytes : Bytes) (endBytes : Option Bytes)
+theorem slppRead_written_json2 {φ : Type} (C : Codec KVs φ) (T : TextOracle) (g : PGame KVs φ) (startBytes : Bytes) (endBytes : Option Bytes)
     (hstart : gameStart T startBytes = .ok g.start)
     (hend : endBytes.map gameEnd = g.fend.map Res.ok)
     (hgecko : ∀ c, g.gecko = some c → c.2 < 2 ^ 32)
     (hs : SizesOK C.withJson g startBytes endBytes) (skip : Bool) :
-    slppRead C.withJson T skip (slppWrite C.withJson g startBytes endBytes) = .ok (if skip then { g with frames := none } else g) :=
+    slppRead C.withJson T skip (slppWrite C.withJson g startBytes endBytes) = .ok (if skip then { g with frames := none } else { g with frames := g.frames.map C.norm }) :=
   slppRead_written C.withJson T g startBytes endBytes hstart hend hgecko hs skip
 
 /-- C07 for `.slpp` with the two JSON entries as real JSON text -/
-theorem slppReadL_cut_json (C : CodecT KVs) (T : TextOracle) (g : PGame KVs) (startBytes : Bytes) (endBytes : Option Bytes)
+theorem slppReadL_cut_json {φ : Type} (C : CodecT KVs φ) (T : TextOracle) (g : PGame KVs φ) (startBytes : Bytes) (endBytes : Option Bytes)
     (hstart : gameStart T startBytes = .ok g.start)
     (hend : endBytes.map gameEnd = g.fend.map Res.ok)
     (hgecko : ∀ c, g.gecko = some c → c.2 < 2 ^ 32)
     (hs : SizesOK C.withJson.toCodec g startBytes endBytes) (skip : Bool) (n : Nat) :
     (∃ m, slppReadL C.withJson.toCodec T skip ((slppWrite C.withJson.toCodec g startBytes endBytes).take n) = .err m) ∨
     slppReadL C.withJson.toCodec T skip ((slppWrite C.withJson.toCodec g startBytes endBytes).take n) =
-      .ok (if skip then { g with frames := none } else g) :=
+      .ok (if skip then { g with frames := none } else { g with frames := g.frames.map C.norm }) :=
   slppReadL_cut C.withJson T g startBytes endBytes hstart hend hgecko hs skip n
 
 #print axioms slppReadL_cut
